@@ -154,11 +154,12 @@ p["units"] += [
     K("h_tdigest::td_insert_any_weight_c1", "quick", "same into a one-centroid digest", "w any f64"),
     K("h_tdigest::td_insert_step_c2b1", "quick", "insert_weighted, 2 centroids + 1 backlog"),
     K("h_tdigest::td_insert_step_c1b2", "quick", "insert_weighted, 1 centroid + 2 backlog"),
-    K("h_tdigest::td_merge_step_c1b1_fuse", "quick", "merge 1+1, delta=1.1", mem_class_gb=8, timeout_s=1800),
-    K("h_tdigest::td_merge_step_c1b1_keep", "quick", "merge 1+1, delta=1000", mem_class_gb=8, timeout_s=1800),
-    K("h_tdigest::td_insert_merges_backlog0", "quick", "max_backlog_size=0: insert merges immediately", mem_class_gb=8, timeout_s=1800),
-    K("h_tdigest::td_merge_step_c2b1_keep", "thorough", "merge 2+1, delta=1000", mem_class_gb=20, timeout_s=5400, mem_gb=40),
-    K("h_tdigest::td_merge_step_c1b2_fuse", "thorough", "merge 1+2, delta=1.1", mem_class_gb=20, timeout_s=5400, mem_gb=40),
+    K("h_tdigest::td_merge_step_c1b1_fuse", "thorough", "merge step 1+1 read-triggered, delta=1.1: totals preserved, sorted, backlog emptied", mem_class_gb=28, timeout_s=3600, mem_gb=48),
+    K("h_tdigest::td_merge_step_c1b1_keep", "thorough", "merge step 1+1 read-triggered, delta=1000", mem_class_gb=28, timeout_s=3600, mem_gb=48),
+    K("h_tdigest::td_insert_merges_backlog0", "quick", "max_backlog_size=0, delta=1000: insert merges immediately, totals/min/max exact, no fusion", mem_class_gb=10, timeout_s=1800, mem_gb=30),
+    K("h_tdigest::td_insert_merges_backlog0_fuse", "quick", "max_backlog_size=0, delta=1.1: insert merges and fuses, totals/min/max exact", mem_class_gb=10, timeout_s=1800, mem_gb=30),
+    K("h_tdigest::td_merge_step_c2b1_keep", "thorough", "merge 2+1, delta=1000", mem_class_gb=28, timeout_s=7200, mem_gb=55),
+    K("h_tdigest::td_merge_step_c1b2_fuse", "thorough", "merge 1+2, delta=1.1", mem_class_gb=28, timeout_s=7200, mem_gb=55),
 ]
 
 # --------------------------------------------------------------------------- C14
@@ -254,7 +255,7 @@ p["units"] += [
 ]
 for w in (1, 2, 4, 16, 64):
     p["units"].append(M("lossy_query_w%d" % w, "quick" if w in (2, 16) else "thorough", "from the invariant: query(a/64) contains every x with T>=s*n and T>eps*n and no x with T<(s-eps)*n", "width=%d, n<2^20" % w,
-                        model="lossy", what_m="query", width=w, need_witness=["frequent_exists"], timeout_s=2400, thresholds=([0, 1, 16, 31, 32, 33, 48, 63, 64] if w in (2, 16) else None)))
+                        model="lossy", what_m="query", width=w, need_witness=(["frequent_exists"] if w > 1 else []), timeout_s=2400, thresholds=([0, 1, 16, 31, 32, 33, 48, 63, 64] if w in (2, 16) else None)))
 # --------------------------------------------------------------------------- C10
 p = prop("C10", engine="mir2smt",
          technique="symbolic execution of the crate's MIR into SMT (z3): inductive top-k invariant over HashMap/BTreeSet/Rc contracts, sketch replaced by the C02 contract",
@@ -379,7 +380,8 @@ p["units"] += [
     K("h_hll::hll_clear_clone_b4", "quick", "HLL clear/clone/is_empty"),
     K("h_qf::qf_clear_clone_q2r2", "quick", "QF clear/clone", mem_class_gb=8, timeout_s=2400), K("h_qf::qf_fresh_q2r2", "quick", "QF new is empty"),
     K("h_cuckoo::ck_clear_clone", "quick", "cuckoo clear/clone", features=["kicks2"], mem_class_gb=10, timeout_s=2400),
-    K("h_reservoir::reservoir_clear_clone_k1", "quick", "reservoir clear/clone"), K("h_reservoir::reservoir_clear_clone_k3", "quick", "reservoir clear/clone"),
+    K("h_reservoir::reservoir_clear_clone_k1", "quick", "reservoir clone equal and independent"), K("h_reservoir::reservoir_clear_clone_k3", "quick", "reservoir clone equal and independent"),
+    K("h_reservoir::reservoir_clear_fresh_k1", "quick", "reservoir clear == fresh (incl. skip counter); next add fills slot 0"), K("h_reservoir::reservoir_clear_fresh_k3", "quick", "reservoir clear == fresh"),
     K("h_tdigest::td_clear_clone", "quick", "TDigest clear/clone raw parts", mem_class_gb=8, timeout_s=2400),
     K("h_tdigest::td_clear_resets_n_for_scale_fn", "quick", "TDigest: after clear the scale function sees n as in a fresh digest", mem_class_gb=8, timeout_s=2400),
     K("h_tdigest::td_insert_step_c0b0", "quick", "TDigest is_empty / zero weight"),
@@ -464,3 +466,9 @@ PROPS["C09"]["units"].append(M("lossy_translator_validation", "quick", "20 VERIF
                                "K=3", model="lossy", op="validate", n=20, need_witness=["cases_agree"]))
 PROPS["C10"]["units"].append(M("heap_translator_validation", "quick", "20 VERIF_SEED-driven concrete (state, key, sketch estimate) cases through the real CMSHeap::add and through the encoding: map and tree must agree",
                                "K=3", model="heap", op="validate", n=20, need_witness=["cases_agree"]))
+
+# Kani cross-check of the cuckoo step on the compiled code with the real packed IntVector (l=16, 4 slots, eviction bound 2)
+PROPS["C14"]["units"] += [
+    K("h_cuckoo::ck_insert_step_kani", "thorough", "insert step on the compiled code (real IntVector bit packing): same clauses as the engine-M unit; the two verdicts must agree", "(2,2,l=16), 2 kicks", features=["kicks2"], mem_class_gb=20, timeout_s=3600, mem_gb=40),
+    K("h_cuckoo::ck_delete_query_kani", "thorough", "delete/query on the compiled code", "(2,2,l=16)", features=["kicks2"], mem_class_gb=10, timeout_s=3600, mem_gb=30),
+]
